@@ -374,7 +374,7 @@ class bptk():
 
 
     def begin_session(self, scenarios, scenario_managers, settings={},agents=[], agent_states=[], agent_properties=[],
-                       agent_property_types=[], individual_agent_properties=[], equations=[],starttime=0.0, dt=1.0):
+                       agent_property_types=[], individual_agent_properties=[], equations=[],starttime=0.0, dt=None):
         """Begins a session to allow stepwise simulation.
 
         This resets the internal session cache, there can only be one session at any time.
@@ -404,8 +404,8 @@ class bptk():
                 Names of equations to plot (System Dynamics).
             starttime: Float (Default=0.0)
                 Timestep at which to start.
-            dt: Dt (Default=1.0)
-                Deltatime.
+            dt: Dt (Default=None)
+                Deltatime. If not given, the dt of the scenarios is used (1.0 if there is none).
 
         """
         self.session_state = None
@@ -467,8 +467,13 @@ class bptk():
                             if scenario in settings[manager.name]:
                                 scenario_object.configure_settings(settings[manager.name][scenario])
                         starttime_ = max(starttime_, scenario_object.starttime)
+                        if dt is None and getattr(scenario_object, "dt", None):
+                            dt = scenario_object.dt
                         stoptime_ = min(stoptime_,scenario_object.stoptime) if stoptime_ is not None else scenario_object.stoptime
                         self.reset_scenario_cache(scenario_manager=manager.name, scenario=scenario)
+
+        if dt is None:
+            dt = 1.0
 
         self.session_state = {
             "scenarios": scenarios,
